@@ -141,12 +141,11 @@ namespace avel {
                 reinterpret_cast<char*>(aligned_allocation) -
                 reinterpret_cast<char*>(unaligned_allocation);
 
-            auto* offset_location =
-                reinterpret_cast<std::size_t*>(
-                    reinterpret_cast<char*>(aligned_allocation) + elements_size
-                );
+            char* offset_location = reinterpret_cast<char*>(aligned_allocation) + elements_size;
 
-            new(offset_location) std::size_t{alignment_offset};
+            // The word after the elements is generally not aligned for
+            // std::size_t, so it is written and read back with memcpy
+            std::memcpy(offset_location, &alignment_offset, sizeof(std::size_t));
 
             return reinterpret_cast<pointer>(aligned_allocation);
 
